@@ -76,6 +76,20 @@ def do_parse(c):
                 r["compile"] = f"{type(e).__name__}: {e}"
             except SyntaxError as e:
                 r["compile"] = f"SyntaxError: {e.msg}"
+        if c.get("spans") and t is not None:
+            lines = io.StringIO(c["src"]).readlines()
+            bad = []
+            for n in ast.walk(t):
+                if not hasattr(n, "lineno") or getattr(n, "end_lineno", None) is None:
+                    continue
+                a0, b0 = (n.lineno, n.col_offset), (n.end_lineno, n.end_col_offset)
+                if a0 > b0:
+                    bad.append(f"{type(n).__name__}: span starts after it ends: {a0} > {b0}")
+                elif not (1 <= n.lineno <= max(1, len(lines)) and 1 <= n.end_lineno <= max(1, len(lines))):
+                    bad.append(f"{type(n).__name__}: line {n.lineno}..{n.end_lineno} outside the source (1..{len(lines)})")
+                elif n.col_offset < 0 or (lines and n.end_col_offset > len(lines[n.end_lineno - 1].encode("utf-8"))):
+                    bad.append(f"{type(n).__name__}: column {n.col_offset}..{n.end_col_offset} outside line {n.end_lineno}")
+            r["spans"] = bad[:5]
         if c.get("unparse") and t is not None:
             try:
                 r["unparse"] = ast.unparse(t)
